@@ -39,7 +39,7 @@ const depthMsg = "maximum recursion depth exceeded"
 
 // Case is the replayable form of one case.
 type Case struct {
-	Kind   string `json:"kind"`             // work | flat | deep | far | walk
+	Kind   string `json:"kind"`             // work | flat | deep | far | walk | mixed | mixfar (Family "<siblings>/<nesting>", N siblings, From = depth)
 	Family string `json:"family,omitempty"` // family name
 	N      int    `json:"n,omitempty"`      // size / width / depth
 	Cost   bool   `json:"cost,omitempty"`   // with the cost rule (work)
@@ -95,6 +95,8 @@ func sourceOf(c Case) (string, bool) {
 		}
 	case "walk":
 		return c.Src, true
+	case "mixed", "mixfar":
+		return mixedSource(c)
 	}
 	return "", false
 }
@@ -457,6 +459,112 @@ func (h *harness) boundary(f deepFamily) (int, error) {
 	return lo, nil
 }
 
+// ---- mixed families -----------------------------------------------------------------------------------
+
+func (h *harness) realAccepts(c Case) (accept, depth bool, obs, panicked string) {
+	src, _ := sourceOf(c)
+	h.begin(c)
+	obs, depth, panicked = realParseObs(src)
+	h.end()
+	return strings.HasPrefix(obs, "(ret ") && !depth && panicked == "", depth, obs, panicked
+}
+
+// baseSiblings: the reference width (every sibling kind needs at least one member to be grammatical).
+const baseSiblings = 2
+
+func (h *harness) mixedFamilies() {
+	run := h.run
+	ns := []int{300, 3000}
+	if run.Thorough() {
+		ns = []int{300, 3000, 20000}
+	}
+	const oracle = "oracle: the nesting depth at which the depth error starts does not depend on the number of preceding siblings (mixed families)"
+	for _, sk := range sibKinds {
+		for _, nk := range nestKinds {
+			fam := sk.name + "/" + nk.name
+			// boundary of the real parser without siblings, by bisection (acceptance is monotone in depth)
+			lo, hi := 0, h.maxRec+8
+			for lo+1 < hi {
+				mid := (lo + hi) / 2
+				if ok, _, _, _ := h.realAccepts(Case{Kind: "mixed", Family: fam, N: baseSiblings, From: mid}); ok {
+					lo = mid
+				} else {
+					hi = mid
+				}
+			}
+			b0 := lo
+			if b0 < 10 {
+				run.Violate("correspondence", fmt.Sprintf("%s: the reference document (2 siblings) is not accepted at nesting depth 10: the family is broken", fam), "", true, Case{Kind: "mixed", Family: fam, N: baseSiblings, From: 10})
+				continue
+			}
+			for _, n := range ns {
+				for _, d := range []int{b0 - 1, b0, b0 + 1} {
+					if d < 1 {
+						continue
+					}
+					c := Case{Kind: "mixed", Family: fam, N: n, From: d}
+					key, _ := json.Marshal(c)
+					run.Case(string(key), true)
+					run.Count("parser:mixed")
+					ok, depth, obs, panicked := h.realAccepts(c)
+					if panicked != "" {
+						run.Oblige(oracle, "oracle", 1, false, panicked)
+						run.Violate("crash", fmt.Sprintf("%s: the parser panicked: %s", fam, panicked), "", false, c)
+						continue
+					}
+					want := d <= b0
+					good := ok == want && (ok || depth)
+					what := ""
+					if !good {
+						what = fmt.Sprintf("%s: with 2 siblings nesting depth %d is accepted and %d gets %q; after %d siblings depth %d gives %.200s", fam, b0, b0+1, depthMsg, n, d, obs)
+					}
+					run.Oblige(oracle, "oracle", 1, good, what)
+					if !good {
+						run.Violate("property", what, "", false, c)
+						continue
+					}
+					if h.model != nil {
+						src, _ := sourceOf(c)
+						a, err := h.askModel(src, false)
+						same := err == nil && a.obs == obs
+						w2 := ""
+						if !same {
+							w2 = fmt.Sprintf("%s n=%d depth=%d: parser %.300s, model %.300s (%v)", fam, n, d, obs, a.obs, err)
+						}
+						run.Oblige("parser-depth correspondence(outcome, error list with positions)", "correspondence", 1, same, w2)
+						if !same {
+							run.Violate("correspondence", w2, "", true, c)
+						}
+					}
+				}
+			}
+		}
+		// far beyond the limit after many siblings: an ordinary error, in a child process
+		for _, nk := range nestKinds[:2] {
+			for _, d := range []int{2 * h.maxRec, 10 * h.maxRec} {
+				c := Case{Kind: "mixfar", Family: sk.name + "/" + nk.name, N: ns[len(ns)-1], From: d}
+				o := runChild(c, h.budget)
+				key, _ := json.Marshal(c)
+				run.Case(string(key), true)
+				run.Count("parser:mixfar")
+				ok := o.Status == "ok" && !o.Res.Accepted && o.Res.DepthErr
+				what := ""
+				if !ok {
+					what = fmt.Sprintf("%s: %d siblings, then nesting %d deep: expected an ordinary %q error, got status=%s accepted=%v errs=%d first=%q %s", c.Family, c.N, d, depthMsg, o.Status, o.Res.Accepted, o.Res.Errs, o.Res.First, o.Tail)
+				}
+				run.Oblige("oracle: nesting beyond the limit is refused with an ordinary error (no crash, no hang), depth 10^3 … 10^6", "oracle", 1, ok, what)
+				if !ok {
+					kind := "property"
+					if o.Status == "crash" {
+						kind = "crash"
+					}
+					run.Violate(kind, what, "", false, c)
+				}
+			}
+		}
+	}
+}
+
 // ---- work families ------------------------------------------------------------------------------------
 
 // selBound: the polynomial bound the cost walk's visits must respect: quadratic in the number of
@@ -766,6 +874,12 @@ func main() {
 		}
 	}
 	lap("deep")
+	// (A3) mixed: N siblings of one production kind, then nesting of one bracket kind. The verdict
+	// for a nesting depth must not depend on N (a recursion counter that drifts with breadth, in
+	// either direction, moves the boundary), must equal the model's, and nesting far beyond the
+	// limit must stay an ordinary error after any number of siblings.
+	h.mixedFamilies()
+	lap("mixed")
 	// (B) work families
 	for _, f := range families {
 		h.workFamily(f)
@@ -977,6 +1091,23 @@ func (h *harness) replay(c Case, verbose bool) {
 		}
 	case "walk":
 		h.walkCase(c)
+	case "mixed":
+		ok, depth, obs, panicked := h.realAccepts(c)
+		ok0, _, _, _ := h.realAccepts(Case{Kind: "mixed", Family: c.Family, N: baseSiblings, From: c.From})
+		if verbose {
+			fmt.Printf("replay mixed: accepted=%v depthError=%v (with 2 siblings accepted=%v) %s %.300s\n", ok, depth, ok0, panicked, obs)
+		}
+		if ok != ok0 || panicked != "" {
+			run.Violate("property", fmt.Sprintf("%s: nesting depth %d is accepted=%v with 2 siblings, accepted=%v after %d siblings", c.Family, c.From, ok0, ok, c.N), "", false, c)
+		}
+	case "mixfar":
+		o := runChild(c, h.budget)
+		if verbose {
+			fmt.Printf("replay mixfar: %+v\n", o)
+		}
+		if !(o.Status == "ok" && !o.Res.Accepted && o.Res.DepthErr) {
+			run.Violate("property", fmt.Sprintf("%s: %d siblings then nesting %d deep: status=%s first=%q %s", c.Family, c.N, c.From, o.Status, o.Res.First, o.Tail), "", false, c)
+		}
 	case "work":
 		o, v := h.workCase(c)
 		if verbose {
